@@ -281,8 +281,30 @@ class FormDataParser:
         ):
             raise RequestEntityTooLarge()
 
+        if self.max_form_memory_size is None:
+            body = stream.read()
+        else:
+            # The declared length may be missing or wrong (for example a stream the
+            # server terminates), so the limit is also enforced on what is read.
+            chunks = []
+            remaining = self.max_form_memory_size + 1
+
+            while remaining > 0:
+                chunk = stream.read(remaining)
+
+                if not chunk:
+                    break
+
+                chunks.append(chunk)
+                remaining -= len(chunk)
+
+            if remaining <= 0:
+                raise RequestEntityTooLarge()
+
+            body = b"".join(chunks)
+
         items = parse_qsl(
-            stream.read().decode(),
+            body.decode(),
             keep_blank_values=True,
             errors="werkzeug.url_quote",
         )
